@@ -15,7 +15,6 @@ NOT_APPLICABLE = {
 
 # checks that exist but are withheld from the manifest for the moment (reason shown under not_applicable)
 HOLD = {
-    "C48": "check built; one suspected defect (migration batch swallows errors in release builds) is being triaged before the check is registered (temporary)",
 }
 NOT_APPLICABLE.update(HOLD)
 
